@@ -470,10 +470,7 @@ def load_stream(ctx, replay=None):
         if what is None and f.get('nfi') == '1' and f.get('nfileft', '0') != '0':
             ntext = ('artifact/image.NewFromImage failed on the image and left %s scalibr-container-* director%s in TMPDIR (the caller is never told the name)'
                      % (f.get('nfileft'), 'y' if f.get('nfileft') == '1' else 'ies'))
-            if f.get('nfileft') == '1' and f.get('uout', '-') == '-' and ctx.known_finding(NFI_KEY, ntext + '. ' + case):
-                stats['NewFromImage: known finding ' + NFI_KEY] += 1
-            else:
-                what = ntext
+            what = ntext
         desc = 'chain layers %s (L archive, E empty-layer entry, X archive marked empty), requirer %s, entry point image.%s, %s director%s already in TMPDIR; layer %s: %s, after %s good entries; %s' % (
             hist, req, 'FromTarball' if entry == 't' else 'FromV1Image', decoys, 'y' if decoys == '1' else 'ies', fail, KIND.get(kind, kind), pos,
             'hostile entries (names with .., absolute paths into the sandbox, links out and writes through them; seed %s) in every archive' % seed
